@@ -43,6 +43,11 @@ Theorem C20_oracle_is_spec : forall q, max_index_fast q = max_index q /\ has_dol
 Proof. intros q. split; [exact (max_index_fast_eq q)|exact (has_dollar_index_fast_eq q)]. Qed.
 Print Assumptions C20_oracle_is_spec.
 
+(* memory: the result grows by appending (at most doubling), so the bytes it can ever
+   occupy are within the budget the allocation oracle allows for that query *)
+Theorem C20_alloc_budget : forall q, 2 * 4 * pp_raw q <= alloc_budget q.
+Proof. exact pp_alloc_within_budget. Qed.
+Print Assumptions C20_alloc_budget.
 (* non-vacuity and sanity *)
 From Coq Require Import String.
 Local Open Scope string_scope.
